@@ -210,6 +210,23 @@ def main(argv=None):
                 broken.append(f"axiom conformance: {f['axiom']} does not hold for the installed libraries: {f}")
         except Exception as e:  # noqa
             broken.append(f"axiom conformance could not run: {e}")
+    batteries = None
+    if tier == "thorough" and not violations and not broken and os.environ.get("VERIF_NO_SELFTEST") != "1":
+        # differential cross-check: the native batteries that replay this property's obligations state the property on the REAL
+        # code; on a tree where every obligation is proved they must be silent.  A noisy battery means a contract that is too
+        # weak (or a wrong battery): checker broken, reported with the battery's finding
+        try:
+            import tempfile
+            with tempfile.NamedTemporaryFile("w", suffix=".json", delete=False, dir=os.environ.get("TMPDIR", "/var/tmp")) as f:
+                json.dump(sorted(agg), f)
+            p = subprocess.run([VENV_PY, os.path.join(ROOT, "replay", "native.py"), "--selftest", f.name], capture_output=True, text=True,
+                               timeout=3000, cwd="/var/tmp", env=dict(os.environ, PYTHONPATH=os.path.join(os.environ.get("VERIF_REPO", "/repo"), "src")))
+            os.unlink(f.name)
+            batteries = json.loads([l for l in p.stdout.splitlines() if l.startswith("{")][-1])
+            for fam, what in batteries.get("noisy", {}).items():
+                broken.append(f"native battery {fam} fails on this tree although every obligation of {prop} is proved: {what[:2]}")
+        except Exception as e:  # noqa
+            batteries = {"error": str(e)}
     selftest = []
     if tier == "thorough" and not violations and not broken and os.environ.get("VERIF_NO_SELFTEST") != "1":
         selftest = seed_selftest(prop)
@@ -245,7 +262,7 @@ def main(argv=None):
         out_lines.append(f"NOTE: known finding {n} no longer reproduces")
     wall = time.time() - t0
     write_evidence(evid_path, prop, tier, seed, results, agg, known_hit, violations, und_obs, undecided, broken, bounded, wall,
-                   selftest, axioms)
+                   selftest, axioms, batteries)
     n_proved = sum(1 for v in agg.values() if v["status"] == "proved")
     print(f"{prop}: {n_proved}/{len(agg)} obligations proved, {len(known_hit)} known findings, {len(violations)} violations, "
           f"{len(und_obs) + len(set(undecided))} undecided, {len(bounded)} bounded stand-ins, {wall:.1f}s, exit {rc}")
@@ -331,7 +348,7 @@ def do_replay(path):
 
 
 def write_evidence(path, prop, tier, seed, results, agg, known_hit, violations, und_obs, undecided, broken, bounded, wall,
-                   selftest=(), axioms=None):
+                   selftest=(), axioms=None, batteries=None):
     cross = {}
     for r in results:
         if r["kind"] != "proof":
@@ -399,6 +416,7 @@ def write_evidence(path, prop, tier, seed, results, agg, known_hit, violations, 
         "cross_solver_answers": cross,           # thorough tier: answers of cvc5 / z3 4.8 on the VCs z3 5.1 proved
         "seeded_change_selftest": list(selftest),   # thorough tier: kept seeded changes re-run on a scratch copy
         "axiom_conformance": axioms,                # thorough tier: trusted JAX/TFP facts executed against the libraries
+        "native_batteries_on_this_tree": batteries,  # thorough tier: the property's replay batteries must be silent here
         "samples": samples or [b.get("samples", [None])[0] for b in bounded][:3],
         "evaluations": max(1, sum(o["path_instances"] for o in obligations) + b_evals),
         "distinct_nontrivial": max(2, len(obligations) + sum(b.get("distinct_nontrivial", 0) for b in bounded)),
